@@ -88,7 +88,7 @@ let natt () = nat_of_int (int_of_string (next ()))
 let rd_opt () : dopt =
   match next () with
   | "H" ->
-      let k = (match next () with "a" -> KAssign | "m" -> KMap | _ -> bad "kind") in
+      let k = (match next () with "a" -> KAssign | "m" -> KMap | "i" -> KMapInt | _ -> bad "kind") in
       let p = pat_tok () in
       let mf = if peek () = "@" then (ignore (next ()); MAny)
                else (match pat_tok () with PRe e -> MPat e | PRoute r -> MPat (route_re r)) in
@@ -133,7 +133,7 @@ let rd_mp () : mpoint =
 (* ---------- printers of concrete lines ---------- *)
 let wr_opt = function
   | DH (k, p, mf, hid, sel) ->
-      Printf.sprintf "H %s %s %s %d %d%s" (match k with KAssign -> "a" | KMap -> "m") (wr_pat p)
+      Printf.sprintf "H %s %s %s %d %d%s" (match k with KAssign -> "a" | KMap -> "m" | KMapInt -> "i") (wr_pat p)
         (match mf with MAny -> "@" | MPat e -> wr_pat (PRe e)) (int_of_n hid) (List.length sel)
         (String.concat "" (List.map (fun s -> " " ^ string_of_int (int_of_nat s)) sel))
   | DM (p, sel, kid) -> Printf.sprintf "X %s %d %d" (wr_pat p) (int_of_nat sel) (int_of_nat kid)
@@ -224,6 +224,31 @@ let eval_line (ts : string list) : string =
           String.concat " | " (List.rev !out)
         end
       end
+  | "E" ->
+      (* E R<k> (<pat> <rewrite pattern hex> <final>)*k SN<j> <hex>*j N<n> (<mp> <app>)*n Q (<host> <uri> <method>)* *)
+      let k = counted 'R' in
+      let rules = times k (fun () -> let p = pat_tok () in let pat = hexb () in let fin = next () = "1" in (p, pat, fin)) in
+      let j = (match next () with t when String.length t > 2 && String.sub t 0 2 = "SN" -> int_of_string (String.sub t 2 (String.length t - 2)) | _ -> bad "SN") in
+      let names = times j hexb in
+      let n = counted 'N' in
+      let pools = times n (fun () -> let mp = rd_mp () in let a = rd_app () in (mp, a)) in
+      expect "Q";
+      if !mismatch then "PRINT-MISMATCH" else begin
+        let rs = List.map (fun (p, pat, fin) -> mk_rule p pat fin) rules in
+        if List.exists (fun r -> r = None) rs then "CONSTRUCT-ERROR" else begin
+          let rs = List.map (function Some r -> r | None -> bad "rule") rs in
+          let out = ref [] in
+          while !toks <> [] do
+            let h = hexb () in let uri = hexb () in let m = hexb () in
+            let r = (match serve rs names pools h uri m with
+                     | Bad400 -> "400"
+                     | Served RNoPool -> "404"
+                     | Served (RApp (_, _, o)) -> (match o with NotFound -> "404" | _ -> wr_outcome o)) in
+            out := r :: !out
+          done;
+          String.concat " | " (List.rev !out)
+        end
+      end
   | _ -> bad "case kind"
 
 let prepare_line (ts : string list) : string =
@@ -245,6 +270,17 @@ let prepare_line (ts : string list) : string =
       let rules = times n (fun () -> let (_, p) = rd_pat (next ()) in let pat = next () in let fin = next () in (p, pat, fin)) in
       expect "Q";
       String.concat " " (["W"; Printf.sprintf "N%d" n] @ List.map (fun (p, pat, fin) -> wr_pat p ^ " " ^ pat ^ " " ^ fin) rules @ ["Q"] @ !toks)
+  | "E" ->
+      let k = counted 'R' in
+      let rules = times k (fun () -> let (_, p) = rd_pat (next ()) in let pat = next () in let fin = next () in (p, pat, fin)) in
+      let sn = next () in
+      let j = int_of_string (String.sub sn 2 (String.length sn - 2)) in
+      let names = times j (fun () -> next ()) in
+      let n = counted 'N' in
+      let pools = times n (fun () -> let mp = rd_mp () in let a = rd_app () in (mp, a)) in
+      expect "Q";
+      String.concat " " (["E"; Printf.sprintf "R%d" k] @ List.map (fun (p, pat, fin) -> wr_pat p ^ " " ^ pat ^ " " ^ fin) rules
+                         @ [sn] @ names @ [Printf.sprintf "N%d" n] @ List.map (fun (mp, a) -> wr_mp mp ^ " " ^ wr_app a) pools @ ["Q"] @ !toks)
   | _ -> bad "case kind"
 
 let () =
